@@ -118,7 +118,7 @@ def run(ctx):
         rule = f"same-program[{cfg}]"
         r = cc.compare(dflt, other)
         ib = cc.index_bodies(other)
-        ctx.floor(rule, r["same"], 450, f"bodies identical to default modulo Rc<->Arc")
+        ctx.floor(rule, r["same"], 380, f"bodies identical to default modulo Rc<->Arc")
         for k in r["differing"]:
             name = k[0]
             if "specialized" in cfg and name == "<T as ToJmespath>::to_jmespath":
